@@ -144,7 +144,8 @@ def replay(ctx, scns, name, jobs=16):
     return trs
 
 
-HEAD_SWITCHES = {"HonorsHost": False, "SchemeBound": True, "StripOnRedirect": True, "FoldCase": True}
+HEAD_SWITCHES = {"HonorsHost": False, "SchemeBound": True, "StripOnRedirect": True, "FoldCase": True,
+                 "PgNoMirrors": True}
 
 PROBES = [
     {"id": "probe-s3", "conf": {"op": "bget", "tls": {"A": True, "B": True, "M": True},
@@ -161,6 +162,10 @@ PROBES = [
      "script": [{"h": "A", "o": "l", "r": {"t": "rd", "to": "Ac", "ts": "http"}},
                 {"h": "A", "o": "l", "r": {"t": "u", "c": "b1"}},
                 {"h": "A", "o": "l", "r": {"t": "rd", "to": "Ac", "ts": "http"}}]},
+    {"id": "probe-page", "conf": {"op": "tags", "tls": {"A": True, "B": True, "M": True}, "mirror": True,
+                                  "cred": {"A": "up", "B": "up", "M": "up"}},
+     "script": [{"h": "M", "o": "g", "r": {"t": "nf"}}, {"h": "A", "o": "g", "r": {"t": "ok"}},
+                {"h": "A", "o": "g", "r": {"t": "u", "c": "b1"}}]},
     {"id": "probe-sub", "conf": {"op": "bget", "tls": {"A": True, "B": True, "M": True},
                                  "cred": {"A": "up", "B": "up", "M": "up"}},
      "script": [{"h": "A", "o": "l", "r": {"t": "u", "c": "b1"}},
@@ -198,6 +203,7 @@ def detect_switches(ctx):
         "HonorsHost": not leak("probe-s3", lambda e: e["to"] == "R" and "A" in e["owners"]),
         "SchemeBound": not leak("probe-plain", lambda e: e["to"] == "A" and e["scheme"] == "http"),
         "StripOnRedirect": not leak("probe-sub", lambda e: e["to"] == "S"),
+        "PgNoMirrors": not leak("probe-page", lambda e: e["to"] == "A" and "M" in e["owners"]),
         "FoldCase": not leak("probe-case", lambda e: e["to"] == "A" and e["scheme"] == "http"),
     }
 
@@ -309,30 +315,40 @@ def run(ctx):
         # 1. exhaustive checks of the design spec.  Default switches = /repo today (cleartext and
         #    sub-domain and case repairs in, S3 open); "fixed" = S3 repaired too; "as found" = before the repairs.
         mc = [ctx.tlc("AuthMC", "C11_mc_asis.cfg", timeout=3000, workers=8,
-                      label="code as is (S3 open), <=3 faults, 18 generator configurations: every leak goes through "
+                      label="code as is (S3 open), <=3 faults, 22 generator configurations: every leak goes through "
                             "a handler keyed by a foreign host"),
               ctx.tlc("AuthMC", "C11_mc_fixed.cfg" if thorough else
                       write_cfg(ctx, "C11_mc_fixed.cfg", "C11_mc_fixed_q.cfg", {"MaxFaults": 2}), timeout=3000, workers=8,
-                      label="S3 repaired too, <=%d faults, 18 generator configurations: no leak" % (3 if thorough else 2))]
+                      label="S3 repaired too, <=%d faults, 22 generator configurations: no leak" % (3 if thorough else 2))]
         # the as-found variant of the case sensitive guard (before f7f5652) must still show its leak
         cx = ctx.tlc("AuthMC", "C11_mc_case_asfound.cfg", timeout=3000, workers=8, allow_violation=True,
                      label="guard case sensitive as found (before f7f5652): expected counterexample to LeaksOnlyS3")
         if cx["violated"] != "LeaksOnlyS3" or '"other-spelling"' not in cx["output"]:
             raise vlib.ToolError("the as-found model of the case sensitive clear text guard no longer shows its leak "
                                  "(expected a counterexample to LeaksOnlyS3 via other-spelling, got %r)" % cx["violated"])
+        # the same for the page links walked over the mirrors (before ac54726); with the repair the invariant holds
+        px = ctx.tlc("AuthMC", "C11_mc_page_asfound.cfg", timeout=3000, workers=8, allow_violation=True,
+                     label="page links over the mirrors as found (before ac54726): expected counterexample to "
+                           "NoCrossConfigured")
+        if px["violated"] != "NoCrossConfigured":
+            raise vlib.ToolError("the as-found model of the page links no longer shows its leak (expected a "
+                                 "counterexample to NoCrossConfigured, got %r)" % px["violated"])
+        mc.append(ctx.tlc("AuthMC", write_cfg(ctx, "C11_mc_page_asfound.cfg", "C11_mc_page.cfg", {"PgNoMirrors": "TRUE"}),
+                          timeout=3000, workers=8,
+                          label="page links repaired, no redirects: no credential crosses between configured hosts"))
         if thorough:
             wide = {"Confs": "AllConfs", "MaxFaults": 2}
             mc.append(ctx.tlc("AuthMC", write_cfg(ctx, "C11_mc_asis.cfg", "C11_mc_asis_all.cfg", wide), timeout=3000,
-                              workers=8, label="code as is (S3 open), <=2 faults, all 256 configurations"))
+                              workers=8, label="code as is (S3 open), <=2 faults, all 324 configurations"))
             mc.append(ctx.tlc("AuthMC", write_cfg(ctx, "C11_mc_fixed.cfg", "C11_mc_fixed_all.cfg", wide), timeout=3000,
-                              workers=8, label="S3 repaired too, <=2 faults, all 256 configurations: no leak"))
+                              workers=8, label="S3 repaired too, <=2 faults, all 324 configurations: no leak"))
             mc.append(ctx.tlc("AuthMC", "C11_mc_asfound.cfg", timeout=3000, workers=8,
-                              label="code as found (before 7d8bea3, 14e04da), <=3 faults, 18 configurations: three leak "
+                              label="code as found (before 7d8bea3, 14e04da), <=3 faults, 22 configurations: three leak "
                                     "mechanisms"))
             for k in ("HonorsHost", "SchemeBound", "StripOnRedirect"):
                 one = write_cfg(ctx, "C11_mc_repair.cfg", "C11_mc_%s.cfg" % k, {k: "TRUE"})
                 mc.append(ctx.tlc("AuthMC", one, timeout=3000, workers=8,
-                                  label="as found + only %s, <=3 faults, 18 configurations: its leak class is gone" % k))
+                                  label="as found + only %s, <=3 faults, 22 configurations: its leak class is gone" % k))
             mc.append(ctx.tlc("AuthMC", "C11_mc_deep.cfg", timeout=3000, workers=8,
                               label="code as is (S3 open), <=4 faults, 3 configurations, core alphabets"))
         lap("model checked")
@@ -340,9 +356,10 @@ def run(ctx):
         subst = {k: tla_bool(v) for k, v in sw.items()}
         gens = []
         if thorough:
-            plan = [("C11_gen_thorough.cfg", None, 4), ("C11_gen_mid.cfg", None, 4), ("C11_gen_sim.cfg", 12000, 1)]
+            plan = [("C11_gen_thorough.cfg", None, 4), ("C11_gen_mid.cfg", None, 4), ("C11_gen_chain.cfg", None, 4),
+                    ("C11_gen_sim.cfg", 12000, 1)]
         else:
-            plan = [("C11_gen_quick.cfg", None, 4), ("C11_gen_sim.cfg", 1500, 1)]
+            plan = [("C11_gen_quick.cfg", None, 4), ("C11_gen_chain.cfg", None, 4), ("C11_gen_sim.cfg", 1200, 1)]
         scns = []
         for cfg, nsim, workers in plan:
             rt = write_cfg(ctx, cfg, cfg.replace(".cfg", "_rt.cfg"), subst)
@@ -413,16 +430,19 @@ def run(ctx):
                     "cmd": "tools/check C11 --replay <this file>"})
         reported.append(sig)
     # ... and every class of rejection is confirmed by a rejection under the invariant
-    by_sig = collections.OrderedDict()      # signature -> [(stream, event, text, is the first of its trace)]
+    by_sig = collections.OrderedDict()      # signature -> [(stream, event, text, is the first of its trace, member)]
     for i, items in sorted(rej.items()):
-        t = reps[i]
-        seen = set()
-        for n, (ei, bad) in enumerate(items):
-            sig = signature(dict(t, events=t["full"]), ei, bad,
-                            any(b.startswith("O1") and e < ei for e, b in items))
-            if sig not in seen:
-                seen.add(sig)
-                by_sig.setdefault(sig, []).append((i, ei, bad, n == 0))
+        # streams with identical facts were merged; the class of failure is named per member trace
+        # (the request class is a diagnostic field outside the facts)
+        for mi in members[i]:
+            t = traces[mi]
+            seen = set()
+            for n, (ei, bad) in enumerate(items):
+                sig = signature(dict(t, events=t["full"]), ei, bad,
+                                any(b.startswith("O1") and e < ei for e, b in items))
+                if sig not in seen:
+                    seen.add(sig)
+                    by_sig.setdefault(sig, []).append((i, ei, bad, n == 0, mi))
     # confirmation under the stopping invariant: one trace per obligation, and one per class that is
     # about to be reported as a violation (not matched by a known finding); only the first violated
     # obligation of a trace can stop TLC, later ones rest on the scan pass
@@ -434,17 +454,16 @@ def run(ctx):
         firsts = [x for x in lst if x[3]]
         if firsts and (not is_known or sig[:2] not in seen_obl):
             seen_obl.add(sig[:2])
-            i, ei, bad, _ = firsts[0]
+            i, ei, bad, _, _ = firsts[0]
             a, rj = ctx.validate_batch("AuthTrace", "C11_trace.cfg", [reps[i]], timeout=600)
             if not rj or rj[0]["line"] != ei:
                 raise vlib.ToolError("scan rejected %s at event %d (%s) but validation did not" % (reps[i]["id"], ei, bad))
             confirmed += 1
-        for i, ei, bad, _ in lst:
-            t = reps[i]
-            for _ in members[i]:
-                ctx.report(sig, "%s at event %d (%s) of %s" % (bad, ei, json.dumps(t["events"][ei]), t["id"]),
-                           {"scenario": t["scenario"], "events": t["full"], "rejected_at": ei,
-                            "cmd": "tools/check C11 --replay <this file>"})
+        for i, ei, bad, _, mi in lst:
+            t = traces[mi]
+            ctx.report(sig, "%s at event %d (%s) of %s" % (bad, ei, json.dumps(t["events"][ei]), t["id"]),
+                       {"scenario": t["scenario"], "events": t["full"], "rejected_at": ei,
+                        "cmd": "tools/check C11 --replay <this file>"})
         reported.append(sig)
     n_rejected = sum(len(members[i]) for i in rej) + len(rejected)
     lap("validated")
@@ -472,7 +491,8 @@ def run(ctx):
                        "events": t["events"][:12]})
     cov = {
         "expected_counterexamples": ([] if ctx.replay else
-                                     ["C11_mc_case_asfound.cfg: LeaksOnlyS3 violated via other-spelling (as found before f7f5652)"]),
+                                     ["C11_mc_case_asfound.cfg: LeaksOnlyS3 violated via other-spelling (as found before f7f5652)",
+                                      "C11_mc_page_asfound.cfg: NoCrossConfigured violated (as found before ac54726)"]),
         "states": sum(r["distinct"] for r in mc), "transitions": sum(r["generated"] for r in mc),
         "traces_validated_against_impl": n_accepted,
         "rejected": n_rejected, "rejection_classes": {s: len(v) for s, v in by_sig.items()},
